@@ -36,21 +36,24 @@ type Req struct {
 	Path          string                     `json:"path,omitempty"`
 	Data          []byte                     `json:"data,omitempty"`
 	Full          bool                       `json:"full,omitempty"`
+	Count         int64                      `json:"count,omitempty"`
 }
 
 type Resp struct {
-	Err     string            `json:"err,omitempty"`
-	Panic   string            `json:"panic,omitempty"`
-	Tx      *chain.TxOut      `json:"tx,omitempty"`
-	Hash    []byte            `json:"hash,omitempty"`
-	Events  string            `json:"events,omitempty"`
-	Code    uint32            `json:"code,omitempty"`
-	Height  int64             `json:"height,omitempty"`
-	Info    string            `json:"info,omitempty"`
-	Export  json.RawMessage   `json:"export,omitempty"`
-	KV      map[string]string `json:"kv,omitempty"`
-	KVHash  string            `json:"kvHash,omitempty"`
-	Vals    int               `json:"vals,omitempty"`
+	Err       string            `json:"err,omitempty"`
+	Panic     string            `json:"panic,omitempty"`
+	Tx        *chain.TxOut      `json:"tx,omitempty"`
+	Hash      []byte            `json:"hash,omitempty"`
+	Events    string            `json:"events,omitempty"`
+	Code      uint32            `json:"code,omitempty"`
+	Height    int64             `json:"height,omitempty"`
+	Info      string            `json:"info,omitempty"`
+	Export    json.RawMessage   `json:"export,omitempty"`
+	KV        map[string]string `json:"kv,omitempty"`
+	KVHash    string            `json:"kvHash,omitempty"`
+	Vals      int               `json:"vals,omitempty"`
+	Hashes    [][]byte          `json:"hashes,omitempty"`
+	EvDigests [][]byte          `json:"evDigests,omitempty"`
 }
 
 // Serve is the child side: it executes requests read from stdin until EOF.
@@ -112,6 +115,26 @@ func handle(n *chain.ABCINode, rq *Req) (rs *Resp) {
 		rs.Code = n.Query(rq.Path, rq.Data)
 	case "end":
 		rs.Events, rs.Vals, rs.Panic = n.EndBlock(rq.Height)
+	case "empty_blocks":
+		// rq.Count times: close the open block rq.Height+i, commit, open the next one 5 s later.
+		// Returns the application hash and a digest of the EndBlock response of every block.
+		t := time.Unix(0, rq.Time).UTC()
+		for i := int64(0); i < rq.Count; i++ {
+			ev, vals, p := n.EndBlock(rq.Height + i)
+			if p != "" {
+				rs.Panic = fmt.Sprintf("EndBlock(%d): %s", rq.Height+i, p)
+				return rs
+			}
+			h := n.Commit()
+			d := sha256.Sum256([]byte(fmt.Sprintf("%s|vals=%d", ev, vals)))
+			rs.Hashes = append(rs.Hashes, h)
+			rs.EvDigests = append(rs.EvDigests, d[:])
+			t = t.Add(5 * time.Second)
+			if p := n.BeginBlock(rq.Height+i+1, t, rq.Proposer, h); p != "" {
+				rs.Panic = fmt.Sprintf("BeginBlock(%d): %s", rq.Height+i+1, p)
+				return rs
+			}
+		}
 	case "commit":
 		rs.Hash = n.Commit()
 	case "info":
